@@ -926,6 +926,30 @@ def _emit_family_impl(draw, S, fam, allow_set_broadcast=True, allow_ndim_dot=Fal
             b = S.nreg() - 1
             if b not in S.bufroot or S.ndim(b) < 1:
                 return False
+        if S.ndim(b) in (1, 2) and draw(st.integers(0, 3)) == 0:
+            # the same entry read twice with a scalar index, overwritten in between through ANOTHER node that aliases the buffer
+            shp = S.shape(b)
+            if S.ndim(b) == 1:
+                i = draw(st.integers(0, shp[0] - 1))
+                i0 = draw(st.integers(0, i))
+                full, vidx, j = i, slice(i0, None), i - i0
+            else:
+                i = (draw(st.integers(0, shp[0] - 1)), draw(st.integers(0, shp[1] - 1)))
+                full, vidx, j = i, i[0], i[1]
+            if not S.try_emit(['get', b, vidx]):
+                return False
+            v = S.nreg() - 1
+            if not S.try_emit(['get', b, full]):
+                return False
+            r1 = S.nreg() - 1
+            w = _pick(draw, S, lambda r: real(r) and S.shape(r) == () and S.bufroot.get(r) != S.bufroot[b])
+            if w is None:
+                if not S.try_emit(['un', 'square' if poly else 'cos', r1]):
+                    return False
+                w = S.nreg() - 1
+            if not (S.try_emit(['set', v, j, w]) and S.try_emit(['get', b, full])):
+                return False
+            return S.try_emit(['bin', draw(st.sampled_from(['add', 'mul'])), r1, S.nreg() - 1])
         idx = _basic_index(draw, S.shape(b))
         if not S.try_emit(['get', b, idx]):
             return False
@@ -946,6 +970,12 @@ def _emit_family_impl(draw, S, fam, allow_set_broadcast=True, allow_ndim_dot=Fal
         if a is None:
             return False
         nd = S.ndim(a)
+        nc = [q for q in sorted(S.noncontig) if S.ndim(q) >= 2 and not S.cplx(q)]
+        if nc and draw(st.integers(0, 2)) == 0:
+            # the whole of a non-contiguous view (transpose, column block, reversed / strided rows): the adjoint buffer has that layout too
+            return S.try_emit(['sum', draw(st.sampled_from(nc)), None])
+        if not nc and nd >= 2 and draw(st.integers(0, 3)) == 0 and S.try_emit(['T', a]):
+            return S.try_emit(['sum', S.nreg() - 1, None])
         if draw(st.integers(0, 3)) == 0:
             # a reduction over an axis of length 1 (or of a single element): nothing is added up, the result must still be a new value
             ones = [q for q in range(S.nreg()) if S.ndim(q) >= 1 and not S.cplx(q) and 1 in S.shape(q)]
